@@ -61,6 +61,23 @@ func rootGlobal(v ssa.Value, depth int) *ssa.Global {
 	return nil
 }
 
+// addrOfGlobal: v is the ADDRESS of a package-level variable or of a part of it (no load in between) — handing it to a
+// call lets the callee mutate the variable (sync.Map.Store, a method with a pointer receiver, ...).
+func addrOfGlobal(v ssa.Value, depth int) *ssa.Global {
+	if depth > 8 {
+		return nil
+	}
+	switch x := v.(type) {
+	case *ssa.Global:
+		return x
+	case *ssa.FieldAddr:
+		return addrOfGlobal(x.X, depth+1)
+	case *ssa.IndexAddr:
+		return addrOfGlobal(x.X, depth+1)
+	}
+	return nil
+}
+
 type fact struct {
 	A, B string
 	N    int
@@ -105,6 +122,7 @@ func factsImpl(repo, out, js string) {
 	sort.Slice(fns, func(i, j int) bool { return shortFn(fns[i]) < shortFn(fns[j]) })
 
 	var mapRanges, panics, fsReads, globalsW, access []fact
+	byRef := map[string]int{} // global \x00 callee -> number of call sites that receive the global's address
 	writers := map[string]map[string]bool{} // global -> writer functions (outside init)
 	// lock discipline: which functions call Lock/RLock on a sync mutex themselves
 	locksSelf := map[*ssa.Function]bool{}
@@ -183,6 +201,32 @@ func factsImpl(repo, out, js string) {
 							k := gkey(g, kpfx)
 							if acc[k] == "" {
 								acc[k] = "r"
+							}
+						}
+					}
+				}
+				if c, ok := in.(ssa.CallInstruction); ok && !isInit {
+					for _, a := range c.Common().Args {
+						if g := addrOfGlobal(a, 0); g != nil {
+							cn := "?"
+							if cal := c.Common().StaticCallee(); cal != nil {
+								cn = shortFn(cal)
+							}
+							byRef[gkey(g, kpfx)+"\x00"+cn]++
+						}
+						// a LOADED package-level pointer / map / channel handed to a call: the callee works on the shared object
+						if u, ok := a.(*ssa.UnOp); ok && u.Op == token.MUL {
+							if g, ok := u.X.(*ssa.Global); ok {
+								switch g.Type().(*types.Pointer).Elem().Underlying().(type) {
+								case *types.Pointer, *types.Map, *types.Chan:
+									cn := "?"
+									if cal := c.Common().StaticCallee(); cal != nil {
+										cn = shortFn(cal)
+									}
+									if !strings.HasPrefix(cn, "(*regexp.Regexp).") {
+										byRef[gkey(g, kpfx)+"\x00"+cn]++
+									}
+								}
 							}
 						}
 					}
@@ -359,6 +403,18 @@ func factsImpl(repo, out, js string) {
 	emit("panicSites", "(function, panic|assert|exit:callee, count): explicit panics, unchecked type assertions, process exits", panics)
 	emit("fsReadSites", "(function, callee, count): direct file-system reads in the build closure", fsReads)
 	emit("mutableGlobals", "(package-level variable, functions that write it outside init, count)", globalsW)
+	var byRefL []fact
+	for k, n := range byRef {
+		i := strings.Index(k, "\x00")
+		byRefL = append(byRefL, fact{k[:i], k[i+1:], n})
+	}
+	sort.Slice(byRefL, func(i, j int) bool {
+		if byRefL[i].A != byRefL[j].A {
+			return byRefL[i].A < byRefL[j].A
+		}
+		return byRefL[i].B < byRefL[j].B
+	})
+	emit("globalsByRef", "(package-level variable, callee that receives its address outside init, number of call sites): state a callee may mutate through the pointer", byRefL)
 	emit("globalAccess", "(mutable global, accessing function, 2 = takes a lock itself / 1 = all callers hold one / 0 = unlocked)", access)
 	b.WriteString("end Kust.Gen\n")
 	writeIfChanged(filepath.Join(out, "CodeFacts.lean"), b.String())
